@@ -228,6 +228,11 @@ func init() {
 					emit(refaddr.CheckEncode(v, h), "wrong-version")
 				}
 			}
+			// the library's own encoder is given the wrong-length payloads first (it does not check the length): what it produced must still not be accepted as an address
+			c.Try("bscript.NewAddressFromPublicKeyHash", func() {
+				_, _ = bscript.NewAddressFromPublicKeyHash(h[:19], ver == 0x00)
+				_, _ = bscript.NewAddressFromPublicKeyHash(append(append([]byte{}, h...), 0x00), ver == 0x00)
+			})
 			emit(refaddr.CheckEncode(ver, h[:19]), "payload-19-bytes")
 			emit(refaddr.CheckEncode(ver, append(append([]byte{}, h...), 0x00)), "payload-21-bytes")
 			emit(refaddr.CheckEncode(ver, append([]byte{0x00}, h...)), "payload-21-bytes")
@@ -418,6 +423,10 @@ func c15JudgePos(c *mon.Ctx, in *c15Pos) {
 	}
 	if c.Try("bscript.NewP2PKHFromPubKeyHashStr", func() { s, err = bscript.NewP2PKHFromPubKeyHashStr(hx) }) {
 		checkScript("NewP2PKHFromPubKeyHashStr", s, err)
+		if s != nil && err == nil { // a script handed out stays what it was whatever is built later
+			kept := s
+			c.Retain("script built by NewP2PKHFromPubKeyHashStr", func() []byte { return *kept })
+		}
 	}
 	tx := bt.NewTx()
 	if c.Try("bt.(*Tx).AddP2PKHOutputFromPubKeyHashStr", func() { err = tx.AddP2PKHOutputFromPubKeyHashStr(hx, 1) }) {
@@ -480,6 +489,21 @@ func c15JudgePos(c *mon.Ctx, in *c15Pos) {
 			viol("C15:script-to-address-differs", "Addresses(%x) = %v, %v; want [%s]", canon, addrs, err, want)
 		} else {
 			c.Count("pos:script-to-hash-and-address")
+		}
+		// the same script OBJECT now gets the content of another P2PKH script (same
+		// length, written in place): hash and address must follow the content
+		h2 := append([]byte{}, h...)
+		for i := range h2 {
+			h2[i] ^= 0x5c
+		}
+		copy(*lib, c15Canonical(h2))
+		var got2 []byte
+		var addrs2 []string
+		var e1, e2 error
+		if c.Try("bscript.(*Script).Addresses", func() { got2, e1 = lib.PublicKeyHash(); addrs2, e2 = lib.Addresses() }) {
+			if e1 != nil || e2 != nil || !bytes.Equal(got2, h2) || len(addrs2) != 1 || addrs2[0] != refaddr.CheckEncode(0x00, h2) {
+				viol("C15:script-to-address-differs:after-in-place-rewrite", "after the script object was rewritten in place to pay hash %x: PublicKeyHash = %x (%v), Addresses = %v (%v)", h2, got2, e1, addrs2, e2)
+			}
 		}
 	}
 	c.Sample("positive:"+kind, 2, func() any {
